@@ -1183,6 +1183,28 @@ func ruleBodyWritesAccounted(id string) func(*Checker) {
 					continue
 				}
 				n++
+				// a helper that returns the count it copied leaves the accounting to its callers
+				if cp := countingHelper(fn); cp != nil && cp == cl {
+					sites := p.callersOf(fn)
+					okAll := len(sites) > 0
+					where := ""
+					for _, site := range sites {
+						sc, plain := site.(*ssa.Call)
+						if !plain || !seenFn[site.Parent()] {
+							okAll, where = false, " (called at "+p.Pos(site.Pos())+", where the count is lost)"
+							continue
+						}
+						okp, off := mustPassOK(sc, isAccount, func(r *ssa.Return) bool { return !mayReturnNilErr(r) }, nil)
+						if !okp {
+							okAll = false
+							if off != nil {
+								where = " (return at " + p.Pos(off.Pos()) + ")"
+							}
+						}
+					}
+					c.check(okAll, id, p.FuncName(fn), "body write counted in Meta.Size", p.Pos(cl.Pos()), "the helper returns the count and every caller adds to Meta.Size on every success path", "content is written to the archive by a helper whose caller can return success without having added it to Meta.Size"+where)
+					continue
+				}
 				okp, off := mustPassOK(cl, isAccount, func(r *ssa.Return) bool { return !mayReturnNilErr(r) }, nil)
 				where := ""
 				if off != nil {
